@@ -52,6 +52,8 @@ class Built:
         self.mk = mk  # number of meta keys in the model
         self.meta_dicts = {}  # update_meta(): the caller keeps and re-uses its dict objects
         self.grave = []  # handles of removed nodes the caller still holds (trace.snapshot() collects them)
+        self.nid_seq = 0   # explicit node_ids handed out by add_child ops with op["nid"]
+        self.last_nid = None
 
     def node(self, i):
         return self.tree if i == 0 else self.nodes[i]
@@ -226,6 +228,8 @@ def _pos_arg(b: Built, pos):
         return False
     if t == "idx":
         return pos["v"]
+    if t == "other":
+        return "zz"       # neither bool, int nor node
     if t == "node":
         return b.nodes[pos["v"]]
     raise ValueError(t)
@@ -269,6 +273,8 @@ def execute(b: Built, op: dict, src: Built | None = None, foreign_tree=None):
     kind_kw = {}
 
     def kk(k):
+        if fl.typed and k == -1:
+            return {"kind": 123}      # an unsupported type
         if fl.typed and k:
             return {"kind": fl.kind(k)}
         return {}
@@ -279,9 +285,15 @@ def execute(b: Built, op: dict, src: Built | None = None, foreign_tree=None):
     try:
         with warnings.catch_warnings():
             warnings.simplefilter("ignore")
+            b.last_nid = None
             if name == "add_child":
+                nid_kw = {}
+                if op.get("nid"):      # the caller chooses the new node's node_id (a fresh one)
+                    b.nid_seq += 1
+                    b.last_nid = 7_000_000 + b.nid_seq      # (node ids are ints: Node.__init__ applies int())
+                    nid_kw = {"node_id": b.last_nid}
                 r = b.node(op["p"]).add_child(
-                    fl.data(op["d"]), before=_pos_arg(b, op["pos"]), **xid_kw(op["xid"]), **kk(op["k"])
+                    fl.data(op["d"]), before=_pos_arg(b, op["pos"]), **xid_kw(op["xid"]), **kk(op["k"]), **nid_kw
                 )
             elif name == "add_child_nid":
                 r = b.node(op["p"]).add_child(fl.data(op["d"]), node_id=b.nodes[op["x"]].node_id)
@@ -301,8 +313,15 @@ def execute(b: Built, op: dict, src: Built | None = None, foreign_tree=None):
                         b.node(op["p"]), add_self=True, before=_pos_arg(b, op["pos"]), deep=op["deep"]
                     )
                 else:
+                    idkw = {}
+                    if op.get("nid"):
+                        b.nid_seq += 1
+                        b.last_nid = 7_000_000 + b.nid_seq
+                        idkw["node_id"] = b.last_nid
+                    if op.get("xidc"):
+                        idkw["data_id"] = fl.real_did(op["xidc"])
                     r = b.node(op["p"]).add_child(
-                        sb.nodes[op["x"]], before=_pos_arg(b, op["pos"]), deep=op["deep"], **kk(op["k"])
+                        sb.nodes[op["x"]], before=_pos_arg(b, op["pos"]), deep=op["deep"], **kk(op["k"]), **idkw
                     )
             elif name == "add_tree":
                 r = b.node(op["p"]).add_child(src.tree, before=_pos_arg(b, op["pos"]), deep=op["deep"])
